@@ -5,7 +5,7 @@ Second tie (next to the correspondence harness) for the two pieces of mdpax that
   * `BatchProcessor.__init__`        (utils/batch_processing.py)  ->  MdpaxV.Gen.batchInit
   * `get_convergence_format`          (utils/logging.py)           ->  MdpaxV.Gen.decimalPlaces
 
-The generated module `lean/MdpaxV/Gen/Code.lean` is imported by `MdpaxV/Theory/GenTie.lean`, whose theorems state that the
+The generated module `lean/MdpaxV/Gen/{Batch,Config}.lean` is imported by `MdpaxV/Theory/GenTie.lean`, whose theorems state that the
 *translated code* equals the hand-written model for ALL inputs in the documented domain.  A semantic change of the source changes
 the generated definitions and breaks those proofs (audit failure of C18 / C20); the checks then search for a failing input with their
 differential runs.  A rewrite the translator cannot read raises `Untranslatable`, which the caller reports the same way.
@@ -24,7 +24,7 @@ from pathlib import Path
 
 VERIF = Path(__file__).resolve().parent.parent
 REPO = Path(os.environ.get("MDPAX_REPO", "/repo"))
-OUT = VERIF / "lean" / "MdpaxV" / "Gen" / "Code.lean"
+OUTDIR = VERIF / "lean" / "MdpaxV" / "Gen"
 
 
 class Untranslatable(Exception):
@@ -350,31 +350,120 @@ def gen_loguru() -> str:
             f"  else .ok ({chain})")
 
 
-HEADER = """/- GENERATED by harness/translate.py from /repo's Python source on every run — do not edit.
-   Source: src/mdpax/utils/batch_processing.py (BatchProcessor.__init__), src/mdpax/utils/logging.py (get_convergence_format),
-   src/mdpax/solvers/*.py, src/mdpax/problems/**.py (the five solver and four problem configuration validators). -/
+# ----------------------------------------------------------------------------- convergence thresholds
+
+def rexpr(e: ast.AST, names: dict[str, str]) -> str:
+    """rational expression over the given names (Python floats read as the ordered field Rat)"""
+    if isinstance(e, ast.Name) and e.id in names:
+        return names[e.id]
+    if isinstance(e, ast.Attribute) and ast.unparse(e) in names:
+        return names[ast.unparse(e)]
+    if isinstance(e, ast.Constant) and isinstance(e.value, (int, float)) and not isinstance(e.value, bool) and float(e.value).is_integer():
+        return f"({int(e.value)} : Rat)"
+    if isinstance(e, ast.BinOp) and type(e.op) in (ast.Add, ast.Sub, ast.Mult, ast.Div):
+        op = {ast.Add: "+", ast.Sub: "-", ast.Mult: "*", ast.Div: "/"}[type(e.op)]
+        return f"({rexpr(e.left, names)} {op} {rexpr(e.right, names)})"
+    if isinstance(e, ast.IfExp):
+        return f"(if {rcond(e.test, names)} then {rexpr(e.body, names)} else {rexpr(e.orelse, names)})"
+    raise Untranslatable(f"threshold expression `{ast.unparse(e)}`")
+
+
+def rcond(t: ast.AST, names) -> str:
+    if isinstance(t, ast.Compare):
+        ops = {ast.Eq: "=", ast.NotEq: "≠", ast.Lt: "<", ast.LtE: "≤", ast.Gt: ">", ast.GtE: "≥"}
+        terms = [t.left] + list(t.comparators)
+        parts = []
+        for a, op, b in zip(terms, t.ops, terms[1:]):
+            if type(op) not in ops:
+                raise Untranslatable(f"threshold comparison `{ast.unparse(t)}`")
+            parts.append(f"{rexpr(a, names)} {ops[type(op)]} {rexpr(b, names)}")
+        return parts[0] if len(parts) == 1 else "(" + " ∧ ".join(parts) + ")"
+    if isinstance(t, ast.BoolOp):
+        return "(" + (" ∧ " if isinstance(t.op, ast.And) else " ∨ ").join(rcond(v, names) for v in t.values) + ")"
+    raise Untranslatable(f"threshold condition `{ast.unparse(t)}`")
+
+
+def gen_thresholds() -> str:
+    out = []
+    vi = ast.parse((REPO / "src/mdpax/solvers/value_iteration.py").read_text())
+    f = find_func(vi, "ValueIteration", "_setup_convergence_testing")
+    table = next((st.value for st in f.body if isinstance(st, ast.Assign) and ast.unparse(st.targets[0]) == "convergence_tests" and isinstance(st.value, ast.Dict)), None)
+    if table is None:
+        raise Untranslatable("ValueIteration._setup_convergence_testing: no literal `convergence_tests` table")
+    use = [st for st in f.body if isinstance(st, ast.Assign) and ast.unparse(st.targets[0]) == "self.conv_threshold"]
+    if len(use) != 1 or ast.unparse(use[0].value) != "threshold_fn(self.epsilon, self.gamma)":
+        raise Untranslatable("ValueIteration: conv_threshold is not threshold_fn(self.epsilon, self.gamma)")
+    seen = {}
+    for k, v in zip(table.keys, table.values):
+        if not (isinstance(k, ast.Constant) and isinstance(v, ast.Tuple) and len(v.elts) == 3 and isinstance(v.elts[2], ast.Lambda)):
+            raise Untranslatable("convergence_tests entry is not (fn, description, lambda)")
+        lam = v.elts[2]
+        args = [a.arg for a in lam.args.args]
+        if len(args) != 2:
+            raise Untranslatable("threshold lambda does not take (eps, gamma)")
+        seen[k.value] = rexpr(lam.body, {args[0]: "eps", args[1]: "gamma"})
+    if set(seen) != {"span", "max_diff"}:
+        raise Untranslatable(f"convergence tests are {sorted(seen)}, expected span and max_diff")
+    out.append("/-- `ValueIteration._setup_convergence_testing` (inherited by policy iteration and semi-asynchronous value iteration): the threshold of the span test -/\n"
+               f"def thresholdSpan (eps gamma : Rat) : Rat := {seen['span']}")
+    out.append("/-- … and of the max_diff test -/\n" f"def thresholdMaxDiff (eps gamma : Rat) : Rat := {seen['max_diff']}")
+    for kind, path, cls in (("pi", "policy_iteration.py", "PolicyIteration"), ("semi", "semi_async_value_iteration.py", "SemiAsyncValueIteration")):
+        tree = ast.parse((REPO / "src/mdpax/solvers" / path).read_text())
+        c = next((n for n in ast.walk(tree) if isinstance(n, ast.ClassDef) and n.name == cls), None)
+        if c is None or "ValueIteration" not in [ast.unparse(b) for b in c.bases]:
+            raise Untranslatable(f"{cls} no longer derives from ValueIteration")
+        if any(isinstance(n, ast.FunctionDef) and n.name == "_setup_convergence_testing" for n in c.body):
+            raise Untranslatable(f"{cls} overrides _setup_convergence_testing")
+    for kind, path, cls in (("rvi", "relative_value_iteration.py", "RelativeValueIteration"), ("periodic", "periodic_value_iteration.py", "PeriodicValueIteration")):
+        f2 = find_func(ast.parse((REPO / "src/mdpax/solvers" / path).read_text()), cls, "_setup_convergence_testing")
+        use = [st for st in f2.body if isinstance(st, ast.Assign) and ast.unparse(st.targets[0]) == "self.conv_threshold"]
+        if len(use) != 1:
+            raise Untranslatable(f"{cls}: conv_threshold assigned {len(use)} times")
+        out.append(f"/-- `{cls}._setup_convergence_testing` -/\n"
+                   f"def threshold_{kind} (eps gamma : Rat) : Rat := {rexpr(use[0].value, {'self.epsilon': 'eps', 'self.gamma': 'gamma'})}")
+    return "\n\n".join(out)
+
+
+HEADER_BATCH = """/- GENERATED by harness/translate.py from /repo's Python source on every run of C18 — do not edit.
+   Source: src/mdpax/utils/batch_processing.py (BatchProcessor.__init__). -/
+namespace MdpaxV.Gen
+
+"""
+
+HEADER_CONFIG = """/- GENERATED by harness/translate.py from /repo's Python source on every run of C20 — do not edit.
+   Source: src/mdpax/utils/logging.py (get_convergence_format, verbosity_to_loguru_level), src/mdpax/solvers/*.py (the five solver configuration
+   validators, the convergence thresholds), src/mdpax/problems/**.py (the four problem configuration validators). -/
 import MdpaxV.Model.Config
 namespace MdpaxV.Gen
 open MdpaxV
 
 """
 
+PARTS = {
+    "Batch": lambda: HEADER_BATCH + gen_batch_init() + "\n\nend MdpaxV.Gen\n",
+    "Config": lambda: HEADER_CONFIG + "\n\n".join([gen_decimal_places(), gen_validators(), gen_problem_validators(), gen_loguru(), gen_thresholds()]) + "\n\nend MdpaxV.Gen\n",
+}
 
-def generate() -> tuple[bool, str]:
-    """(re)write the generated module; returns (changed, text).  Raises Untranslatable."""
-    text = HEADER + gen_batch_init() + "\n\n" + gen_decimal_places() + "\n\n" + gen_validators() + "\n\n" + gen_problem_validators() + "\n\n" + gen_loguru() + "\n\nend MdpaxV.Gen\n"
-    old = OUT.read_text() if OUT.exists() else None
+
+def generate(part: str) -> tuple[bool, str]:
+    """(re)write MdpaxV/Gen/<part>.lean; returns (changed, text).  Raises Untranslatable."""
+    text = PARTS[part]()
+    out = OUTDIR / f"{part}.lean"
+    old = out.read_text() if out.exists() else None
     if old != text:
-        OUT.parent.mkdir(parents=True, exist_ok=True)
-        OUT.write_text(text)
+        OUTDIR.mkdir(parents=True, exist_ok=True)
+        out.write_text(text)
     return old != text, text
 
 
 if __name__ == "__main__":
-    try:
-        ch, t = generate()
-        print(t)
-        print("-- changed" if ch else "-- unchanged", file=sys.stderr)
-    except Untranslatable as e:
-        print("UNTRANSLATABLE:", e, file=sys.stderr)
-        sys.exit(3)
+    rc = 0
+    for part in PARTS:
+        try:
+            ch, t = generate(part)
+            print(t)
+            print(f"-- {part}: " + ("changed" if ch else "unchanged"), file=sys.stderr)
+        except Untranslatable as e:
+            print(f"UNTRANSLATABLE ({part}):", e, file=sys.stderr)
+            rc = 3
+    sys.exit(rc)
